@@ -63,6 +63,22 @@ def judge_x(expect_len, expect_crc, must_be_bad):
     return j
 
 
+def judge_seq(expect_len, expect_crc):
+    """any history on ONE intact member: every extract that reports success must have written exactly the member"""
+    def j(c_out):
+        if c_out.startswith(("CRASH", "TIMEOUT")):
+            return "implementation crashed: " + c_out[:120]
+        for tok in c_out.split(" live=")[0].split(";"):
+            m = re.match(r"x([01]):(\d+):([0-9a-f]{4})$", tok)
+            if m and m.group(1) == "1":
+                n, c = int(m.group(2)), int(m.group(3), 16)
+                if n != expect_len or c != expect_crc:
+                    return ("extract reported success but wrote %d bytes with CRC %04x; the header records length %d, CRC %04x "
+                            "(a second decoding operation on the same member)" % (n, c, expect_len, expect_crc))
+        return None
+    return j
+
+
 def collision_tail(prefix):
     """two bytes t such that crc16(prefix + 8 random + t) == crc16(prefix): a truncation that keeps the CRC"""
     target = crc16(prefix)
@@ -102,6 +118,16 @@ def gen_cases(ctx, n):
                         judge=judge_x(ln, None, True), tags={"wrong-crc"}, note="bad"))
         out.append(Case(A.rdr_op("seek", "eod", ["n", "x1"], stored_member(data, length=ln + r.choice([1, 5]))),
                         judge=judge_x(None, None, True), tags={"wrong-length"}, note="bad"))
+    # (1b) several decoding operations on the same member: a success verdict must still mean "the file holds the member"
+    for k in range(max(3, n // 10)):
+        ln = r.choice([1, 30, 200, 3000])
+        data = S.rand_bytes(r, ln)
+        good = stored_member(data, level=r.choice([0, 1, 2])) + stored_member(b"second", name=b"g.bin")
+        for hist in (["n", "c", "x1"], ["n", "r10", "x1"], ["n", "x1", "x1"], ["n", "r%d" % ln, "x1"], ["n", "c", "c", "x1"],
+                     ["n", "r1", "r1", "x1", "n", "x1"], ["n", "x1", "c", "n", "c", "x1"]):
+            out.append(Case(A.rdr_op(r.choice(A.KINDS), r.choice(A.POLICIES), hist, good), judge=judge_seq(ln, crc16(data)) if hist.count("n") == 1 else None,
+                            tags={"multi-op", "c-only"}, note="bad"))      # judged on the implementation only: the reader MODEL follows
+            # the C on histories with at most one decoding operation per member (the library's contract, C15/C20's quantifier)
     # (2) engineered CRC collision: the first 1024 bytes have the same CRC as all 1034; archive cut short inside the tail
     for k in range(max(1, n // 20)):
         pre = S.rand_bytes(r, 1024)
